@@ -34,6 +34,7 @@ import (
 	"github.com/ollama/ollama/ml"
 	"github.com/ollama/ollama/model"
 	"github.com/ollama/ollama/model/input"
+	"github.com/ollama/ollama/runner/common"
 	"github.com/ollama/ollama/sample"
 	"github.com/ollama/ollama/zzverif"
 )
@@ -371,6 +372,7 @@ type v7Cfg struct {
 	parallel, ctx, batch int
 	multi, canShift      bool
 	vocab, eosMod        int
+	stopEarliest         bool // which FindStop the tree has (probed on the real function)
 }
 
 type v7Event struct {
@@ -844,7 +846,7 @@ func (h *v7Harness) header(n int) string {
 		return 0
 	}
 	c := h.cfg
-	return fmt.Sprintf("hist %d %d %d %d %d %d %d %d %d", c.resetEnd, c.parallel, c.ctx, c.batch, b(c.multi), b(c.canShift), c.vocab, c.eosMod, n)
+	return fmt.Sprintf("hist %d %d %d %d %d %d %d %d %d %d", c.resetEnd, c.parallel, c.ctx, c.batch, b(c.multi), b(c.canShift), c.vocab, c.eosMod, b(c.stopEarliest), n)
 }
 
 // run executes events drawn from next() until it returns nil or a step fails.
@@ -908,8 +910,15 @@ func (h *v7Harness) run(next func() *v7Event) {
 
 // ------------------------------------------------------------------ generator
 
+// v7ProbeStop asks the real FindStop which variant the tree has: the pinned one returns the first
+// listed stop that occurs, the repaired one the stop that occurs earliest.
+func v7ProbeStop() bool {
+	_, st := common.FindStop("ab", []string{"b", "ab"})
+	return st == "ab"
+}
+
 func v7GenCfg(r *zzverif.Rng, resetEnd int) v7Cfg {
-	c := v7Cfg{resetEnd: resetEnd}
+	c := v7Cfg{resetEnd: resetEnd, stopEarliest: v7ProbeStop()}
 	c.parallel = r.Range(1, 4)
 	c.ctx = r.Pick3(4, 12, 64)
 	c.batch = zzverif.Pick(r, []int{1, 1, 2, 3, 4, 8, 16})
@@ -1052,7 +1061,7 @@ func (h *v7Harness) stats() {
 
 func v7ParseHist(line string) (v7Cfg, []*v7Event) {
 	f := strings.Fields(line)
-	if len(f) < 10 || f[0] != "hist" {
+	if len(f) < 11 || f[0] != "hist" {
 		panic("bad hist line")
 	}
 	at := func(i int) int {
@@ -1063,8 +1072,8 @@ func v7ParseHist(line string) (v7Cfg, []*v7Event) {
 		return v
 	}
 	c := v7Cfg{resetEnd: at(1), parallel: at(2), ctx: at(3), batch: at(4), multi: at(5) != 0, canShift: at(6) != 0, vocab: at(7), eosMod: at(8)}
-	n := at(9)
-	i := 10
+	n := at(10)
+	i := 11
 	var evs []*v7Event
 	list := func() []int {
 		k := at(i)
@@ -1104,6 +1113,7 @@ func v7ParseHist(line string) (v7Cfg, []*v7Event) {
 func v7Replay(line string, resetEnd int, out *zzverif.Out) {
 	cfg, evs := v7ParseHist(line)
 	cfg.resetEnd = resetEnd
+	cfg.stopEarliest = v7ProbeStop()
 	h := v7NewHarness(cfg, out)
 	k := 0
 	h.run(func() *v7Event {
